@@ -4097,6 +4097,9 @@ class GraphTraversalReachability:
         """
         result: set[ObjectID] = set()
         for tree_sha in tree_shas:
+            # A tree is reachable from itself; _collect_filetree_revs only
+            # adds what it contains.
+            result.add(tree_sha)
             _collect_filetree_revs(self.store, tree_sha, result)
         return result
 
